@@ -243,6 +243,7 @@ func C01(r *core.Run) {
 	rule0113(r)
 	rule106(r)
 	rule163(r, hostMiddlewares(r))
+	ruleL9(r, newLockset(r))
 }
 
 func rule011(r *core.Run) {
@@ -1690,8 +1691,9 @@ func uploadDecodeFile(r *core.Run, fn *ssa.Function) bool {
 		}
 	}
 	switch fname(r, fn) {
-	case "gofakes3.(*GoFakeS3).createObject", "gofakes3.(*GoFakeS3).putMultipartUploadPart", "gofakes3.(*uploader).UploadPart":
-		return true
+	case "gofakes3.(*GoFakeS3).createObject", "gofakes3.(*GoFakeS3).putMultipartUploadPart", "gofakes3.(*uploader).UploadPart",
+		"s3mem.(*Backend).PutObject", "s3bolt.(*Backend).PutObject", "s3afero.(*MultiBucketBackend).PutObject", "s3afero.(*SingleBucketBackend).PutObject":
+		return true // the consumers of the decoded stream: a decoder error must not be swallowed there either
 	}
 	return false
 }
